@@ -22,7 +22,9 @@ def item(i):
     if i["mode"] == "mod":
         return f"#[::entrait::entrait({vis}T)]\n    {iv}mod m {{ pub fn f<D>(deps: &D) {{}} }}"
     # (the delegation-target trait is called TI: the generated `trait DelegateTr<T>` shadows a trait named `T`, see C19)
-    return f"#[::entrait::entrait(TI, delegate_by = DelegateTr)]\n    {vis}trait Tr {{ fn m(&self); }}"
+    # for trait inputs `itemvis` is the visibility keyword written before the delegation-target trait's name in the
+    # attribute: it must not matter - the target trait takes the visibility of the original trait
+    return f"#[::entrait::entrait({iv}TI, delegate_by = DelegateTr)]\n    {vis}trait Tr {{ fn m(&self); }}"
 
 
 def tname(i):
@@ -49,7 +51,6 @@ def render(i, lib_path=None):
 def main():
     chk = vf.Check("C13")
     cases, res = vf.mc_cases(chk, "MC_C13", actions=["GenTraitVisibility", "ResolveProbe"], workers=4)
-    cases = [c for c in cases if not (c["in"]["mode"] == "trait" and c["in"]["itemvis"] != "")]
     lib = vf.Crate(os.path.join(chk.work, "c13lib"), "c13lib", lib=True)
     ext = vf.Crate(os.path.join(chk.work, "c13ext"), "c13ext", deps=[f'c13lib = {{ path = "{os.path.join(chk.work, "c13lib")}" }}'], entrait=False)
     for c in cases:
@@ -92,7 +93,7 @@ def main():
     chk.cov["evaluations"] = len(events)
     chk.cov["distinct_nontrivial"] = sum(1 for e in events if not e["obs"]["compiled"])
     chk.cov["positive_probes"] = sum(1 for e in events if e["obs"]["compiled"])
-    chk.cov["rule"] = ("requested visibility {none, pub, pub(crate), and for fn inputs pub(super), pub(in crate::cases)} x item visibility {none, pub, "
+    chk.cov["rule"] = ("requested visibility {none, pub, pub(crate), and for fn inputs pub(super), pub(in crate::cases)} x item visibility (for trait inputs: the visibility keyword written before the target trait's name) {none, pub, "
                        "pub(crate)} x {fn, mod, trait (delegation-target trait)} x probe location {same module, child, sibling, parent, other crate}; "
                        "all points replayed; non-trivial = negative probe (naming the trait must NOT compile)")
     chk.cov["exhaustive"] = True
